@@ -43,6 +43,7 @@ package disasm
 
 //@ func (p *parser) Parse(objDump string) ([]Syscall, error)   properties C16
 //@   requires p != nil && p.Info != nil
+//@   modifies ghost.pos
 //@   requires ghost.pos == 0 && ghost.nlines >= 0 
 //@   calls p.parse in parseX86_64
 //@   ensures @no_truncation {C16} ghost.scanErr != nil ==> result1 != nil
@@ -58,8 +59,12 @@ package disasm
 //@     invariant @names {C16} forall(j, 0, len(syscalls), has(p.SyscallNumbers, syscalls[j].Num) && p.SyscallNumbers[syscalls[j].Num] == syscalls[j].Name)
 //@     decreases ghost.nlines - ghost.pos
 
-//@ func ExtractSyscalls(arch *arch.Info, objDump string) ([]Syscall, error)   properties C16
+//@ func ExtractSyscalls(arch *arch.Info, objDump string) ([]Syscall, error)   properties C16 C18
 //@   requires arch != nil
 //@   requires ghost.pos == 0 && ghost.nlines >= 0 
+//@   modifies ghost.pos
 //@   ensures @no_truncation {C16} ghost.scanErr != nil ==> result1 != nil
 //@   ensures @err_no_result {C16} result1 != nil ==> len(result0) == 0
+//@   ensures @supported {C16} result1 == nil ==> arch.ID == i386Parser.ID || arch.ID == x86_64Parser.ID
+//@   ensures @names_i386 {C16 C18} result1 == nil && arch.ID == i386Parser.ID ==> forall(j, 0, len(result0), has(i386Parser.SyscallNumbers, result0[j].Num) && i386Parser.SyscallNumbers[result0[j].Num] == result0[j].Name)
+//@   ensures @names_x86_64 {C16 C18} result1 == nil && arch.ID == x86_64Parser.ID ==> forall(j, 0, len(result0), has(x86_64Parser.SyscallNumbers, result0[j].Num) && x86_64Parser.SyscallNumbers[result0[j].Num] == result0[j].Name)
